@@ -923,7 +923,12 @@ func s5Judge(p *s5Plan, srv *s5Server, res *s5Result, tr *vs.Trace, slack time.D
 			}
 		}
 		if len(p.Garbage) > 0 && res.trailing != nil && !bytes.Equal(res.trailing, p.Garbage) {
-			vs.G.Inc("stat.proxied_bytes_after_reply_differ") // not part of the property
+			// not part of the property; a read error (cut, expired context) explains a short read
+			if res.trailErr != nil {
+				vs.G.Inc("stat.proxied_read_failed")
+			} else {
+				vs.G.Inc("stat.proxied_bytes_after_reply_differ")
+			}
 		}
 	} else {
 		// the deadline timer of the context and the one of the connection fire at the
